@@ -239,7 +239,17 @@ func (e *effEngine) freshExpr(fi *core.FuncInfo, x ast.Expr, depth int) bool {
 				case "make", "new":
 					return true
 				case "append":
-					return len(v.Args) > 0 && e.freshExpr(fi, v.Args[0], depth+1)
+					if len(v.Args) == 0 || !e.freshExpr(fi, v.Args[0], depth+1) {
+						return false
+					}
+					// deep: a fresh slice that holds pointers handed in from elsewhere is not fresh storage — what is
+					// reached through its elements belongs to whoever owns the pointees
+					for _, el := range v.Args[1:] {
+						if t := info.TypeOf(el); t != nil && (pointerLike(t) || core.IsSlice(t) && v.Ellipsis.IsValid()) && !e.freshExpr(fi, el, depth+1) {
+							return false
+						}
+					}
+					return true
 				}
 			}
 		}
